@@ -164,6 +164,9 @@ Inductive sk :=
        and the two scopes of ForIn / ForOf (always = false: direct_eval only touched when the scope exists) *)
 | KWith (sid : nat) (obj : sk) (body : sk)
 | KFun (fs : fscopes) (cde : bool) (pnames : list name) (params : list sk) (body : list sk)   (* visit_function_like *)
+| KNamed (nsid : nat) (cde : bool) (k : sk)
+    (* a named function / generator / async function expression: escape_name_scope(name_scope, contains_direct_eval)
+       runs before visit_function_like (k is the KFun) *)
 | KClass (nsid : option nat) (ks : list sk)        (* class declaration / expression: name scope escaped unconditionally *)
 | KSwap (sid : nat) (ks : list sk).                (* class field initializer: plain scope swap *)
 
@@ -208,6 +211,9 @@ Fixpoint an (k : sk) (cur : nat) (de w : bool) (T : table) {struct k} : table :=
       if arguments_object_accessed T3 fs && fs_mapped fs
       then fold_left (fun T x => access_binding T (parameter_scope fs) x true) pnames T3
       else T3
+  | KNamed nsid cde k =>
+      (* if let Some(name_scope) = name_scope && (self.direct_eval || contains_direct_eval) { escape_all_bindings } *)
+      an k cur de w (if de || cde then escape_all T nsid else T)
   | KClass nsid ks =>
       let T1 := match nsid with Some s => escape_all T s | None => T end in
       let cur' := match nsid with Some s => s | None => cur end in
@@ -239,6 +245,7 @@ Fixpoint occs (k : sk) (cur : nat) (de w : bool) {struct k} : list (name * nat *
   | KFun fs cde pnames params body =>
       flat_map (fun a => occs a (parameter_scope fs) (cde || de) w) params
       ++ flat_map (fun a => occs a (body_scope fs) (cde || de) w) body
+  | KNamed _ _ k => occs k cur de w
   | KClass nsid ks =>
       let cur' := match nsid with Some s => s | None => cur end in
       flat_map (fun a => occs a cur' de w) ks
@@ -306,6 +313,7 @@ Fixpoint has_eval (k : sk) : bool :=
   | KScope _ _ _ ks => existsb has_eval ks
   | KWith _ o b => has_eval o || has_eval b
   | KFun _ _ _ ps b => existsb has_eval ps || existsb has_eval b
+  | KNamed _ _ k => has_eval k
   | KClass _ ks => existsb has_eval ks
   | KSwap _ ks => existsb has_eval ks
   end.
@@ -321,6 +329,7 @@ Fixpoint honest (k : sk) : bool :=
       (match sid with Some _ => implb (existsb has_eval ks) cde | None => true end) && forallb honest ks
   | KWith _ o b => honest o && honest b
   | KFun _ cde _ ps b => implb (existsb has_eval ps || existsb has_eval b) cde && forallb honest ps && forallb honest b
+  | KNamed _ cde k => implb (has_eval k) cde && honest k
   | KClass _ ks => forallb honest ks
   | KSwap _ ks => forallb honest ks
   end.
@@ -337,6 +346,7 @@ Fixpoint ev_scopes (k : sk) : list nat :=
   | KFun fs _ _ ps b =>
       (if existsb has_eval ps || existsb has_eval b then fs_all fs else [])
       ++ flat_map ev_scopes ps ++ flat_map ev_scopes b
+  | KNamed nsid _ k => (if has_eval k then [nsid] else []) ++ ev_scopes k
   | KClass nsid ks => (if existsb has_eval ks then opt_list nsid else []) ++ flat_map ev_scopes ks
   | KSwap _ ks => flat_map ev_scopes ks
   end.
@@ -448,24 +458,30 @@ Definition lex_decl_of (top : bool) (s : node) : list (bool * list name) :=
 Definition top_level_lexical_names (body : list node) : list name :=
   flat_map (fun s => flat_map snd (lex_decl_of true s)) body.
 
-(* contains(node, ContainsSymbol::DirectEval): the ContainsVisitor does not look into object-literal
-   methods, class methods, class field initializers and static blocks. *)
-Fixpoint ce (n : node) : bool :=
+(* contains(node, ContainsSymbol::DirectEval).
+   old = true is the analyzer before the fixes `eval-under-method` / `eval-named-function-expression` (kept because
+   the two refutation witnesses document those findings): the ContainsVisitor did not look into object-literal
+   methods, class methods, class field initializers and static blocks.
+   old = false is the code that exists now: a method counts through its own contains_direct_eval flag (an
+   object-literal method after its computed key), a field through key and initializer, a static block through its
+   statements. *)
+(* visit_call: `Expression::Identifier(ident) = node.function().flatten()` with ident == eval *)
+Definition is_direct_eval (f : node) : bool :=
+  match f with NId x => N.eqb x n_eval | _ => false end.
+
+Fixpoint ceg (old : bool) (n : node) : bool :=
+  let ce := ceg old in
   match n with
   | NId _ | NThis => false
   | NOp ks => existsb ce ks
-  | NCall f args =>
-      match f with
-      | NId x => if N.eqb x n_eval then true else existsb ce args
-      | _ => ce f || existsb ce args
-      end
+  | NCall f args => if is_direct_eval f then true else ce f || existsb ce args
   | NFun _ _ ps b => existsb ce ps || existsb ce b
   | NArrow _ ps b => existsb ce ps || existsb ce b
-  | NMethod _ _ _ _ => false
+  | NMethod _ key ps b => if old then false else existsb ce key || (existsb ce ps || existsb ce b)
   | NClass _ h c es => existsb ce h || existsb ce c || existsb ce es
-  | NCMethod _ _ => false
-  | NField key _ => existsb ce key
-  | NStaticBlock _ => false
+  | NCMethod ps b => if old then false else existsb ce ps || existsb ce b
+  | NField key init => existsb ce key || (if old then false else existsb ce init)
+  | NStaticBlock b => if old then false else existsb ce b
   | NPat _ _ inits => existsb ce inits
   | NParam p init _ => ce p || existsb ce init
   | NVar ds => existsb ce ds
@@ -482,6 +498,8 @@ Fixpoint ce (n : node) : bool :=
   | NCatch p b => existsb ce p || existsb ce b
   | NWith o b => ce o || ce b
   end.
+Definition ce : node -> bool := ceg false.
+Definition ce_old : node -> bool := ceg true.
 
 (* --- the *_declaration_instantiation functions ---------------------------------------------------- *)
 
@@ -563,7 +581,9 @@ Definition fdi (T : table) (params body : list node) (arrow strict : bool) (func
 
 Definition lex_for_names (ds : list node) : list name := flat_map declr_names ds.
 
-Fixpoint col (n : node) (cur : nat) (strict : bool) (T : table) {struct n} : sk * table :=
+Fixpoint colg (old : bool) (n : node) (cur : nat) (strict : bool) (T : table) {struct n} : sk * table :=
+  let col := colg old in
+  let ce := ceg old in
   let col_list :=
     fix go (l : list node) (cur : nat) (strict : bool) (T : table) {struct l} : list sk * table :=
       match l with
@@ -586,12 +606,10 @@ Fixpoint col (n : node) (cur : nat) (strict : bool) (T : table) {struct n} : sk 
   | NThis => (KSeq [], T)
   | NOp ks => let '(k, T1) := col_list ks cur strict T in (KSeq k, T1)
   | NCall f args =>
-      match f with
-      | NId x => let '(ka, T1) := col_list args cur strict T in
-                 if N.eqb x n_eval then (KEval ka, T1) else (KSeq (KId x :: ka), T1)
-      | _ => let '(kf, T0) := col f cur strict T in
-             let '(ka, T1) := col_list args cur strict T0 in (KSeq (kf :: ka), T1)
-      end
+      if is_direct_eval f
+      then let '(ka, T1) := col_list args cur strict T in (KEval ka, T1)
+      else let '(kf, T0) := col f cur strict T in
+           let '(ka, T1) := col_list args cur strict T0 in (KSeq (kf :: ka), T1)
   | NFun fname fstrict params body =>
       let cde := existsb ce params || existsb ce body in
       match fname with
@@ -599,7 +617,9 @@ Fixpoint col (n : node) (cur : nat) (strict : bool) (T : table) {struct n} : sk 
           (* name scope with the immutable function name, then the function scope inside it *)
           let '(T1, ns) := new_scope T cur false in
           let T2 := create_immutable T1 ns x (strict || fstrict) in
-          fun_like ns false fstrict params body cde T2
+          let '(kf, T3) := fun_like ns false fstrict params body cde T2 in
+          (* (before the fix the escape analyzer never touched the name scope) *)
+          (if old then kf else KNamed ns cde kf, T3)
       | None => fun_like cur false fstrict params body cde T
       end
   | NArrow fstrict params body =>
@@ -713,20 +733,28 @@ Fixpoint col (n : node) (cur : nat) (strict : bool) (T : table) {struct n} : sk 
       (KWith s ko kb, T3)
   end.
 
-Definition col_stmts (l : list node) (cur : nat) (strict : bool) (T : table) : list sk * table :=
-  fold_left (fun '(ks, T) a => let '(k, T1) := col a cur strict T in (ks ++ [k], T1)) l ([], T).
+Definition col : node -> nat -> bool -> table -> sk * table := colg false.
+
+Definition col_stmts_g (old : bool) (l : list node) (cur : nat) (strict : bool) (T : table) : list sk * table :=
+  fold_left (fun '(ks, T) a => let '(k, T1) := colg old a cur strict T in (ks ++ [k], T1)) l ([], T).
+Definition col_stmts := col_stmts_g false.
 
 (* Scope::new_global() *)
 Definition global_table : table := [mkS None true []].
 
 (* Script::analyze_scope: collect_bindings then analyze_binding_escapes *)
-Definition collect_script (strict : bool) (stmts : list node) : sk * table :=
+Definition collect_script_g (old : bool) (strict : bool) (stmts : list node) : sk * table :=
   let T0 := global_decl_inst global_table stmts in
-  let '(ks, T1) := col_stmts stmts O strict T0 in
+  let '(ks, T1) := col_stmts_g old stmts O strict T0 in
   (KSeq ks, T1).
+Definition collect_script := collect_script_g false.
+(* the analyzer as it was before the two eval fixes *)
+Definition collect_script_old := collect_script_g true.
 
 Definition analyze (strict : bool) (stmts : list node) : table :=
   let '(k, T) := collect_script strict stmts in an k O false false T.
+Definition analyze_old (strict : bool) (stmts : list node) : table :=
+  let '(k, T) := collect_script_old strict stmts in an k O false false T.
 
 (* the scopes in which a direct eval call site is compiled: the eval code resolves names from there *)
 Fixpoint sites (k : sk) (cur : nat) {struct k} : list nat :=
@@ -737,6 +765,7 @@ Fixpoint sites (k : sk) (cur : nat) {struct k} : list nat :=
   | KScope _ sid _ ks => flat_map (fun a => sites a (match sid with Some s => s | None => cur end)) ks
   | KWith sid o b => sites o cur ++ sites b sid
   | KFun fs _ _ ps b => flat_map (fun a => sites a (parameter_scope fs)) ps ++ flat_map (fun a => sites a (body_scope fs)) b
+  | KNamed _ _ k => sites k cur
   | KClass nsid ks => flat_map (fun a => sites a (match nsid with Some s => s | None => cur end)) ks
   | KSwap sid ks => flat_map (fun a => sites a sid) ks
   end.
